@@ -108,6 +108,15 @@ pub fn run_child(ctx: &mut Ctx) {
                         if let Err(e) = truthful(&a, &q, &world_cas, None) { ctx.fail("C05", "manager-untruthful", format!("shard manager dedup answer not truthful: {e} (case {case_no})"), replay.clone()); }
                         ops.push(format!("q:{}", q.iter().map(|h| h.hex()).collect::<Vec<_>>().join(","))); outs.push(format!("q[{}]", answer_str(&a)));
                         ctx.stat(if a.is_some() { "query_hit" } else { "query_miss" });
+                        // C11 monitor (lookup completeness): while fewer chunks than the index cap are registered at all, a chunk that is
+                        // stored in some xorb at an offset <= u16::MAX and shares its truncated hash with no other stored chunk is found
+                        if a.is_none() {
+                            let total_chunks: usize = world_cas.values().map(|w| w.chunks.len()).sum();
+                            let holders = world_cas.values().flat_map(|w| w.chunks.iter().enumerate()).filter(|(_, x)| x.chunk_hash[0] == q[0][0]).collect::<Vec<_>>();
+                            if total_chunks < maxidx && holders.len() == 1 && holders[0].1.chunk_hash == q[0] && holders[0].0 <= u16::MAX as usize {
+                                ctx.fail("C11", "registered-chunk-not-found", format!("a stored chunk (unique truncated hash, offset {} in its xorb, {total_chunks} chunks registered in all, index cap {maxidx}) is not found by the shard manager (case {case_no})", holders[0].0), replay.clone());
+                            }
+                        }
                         // C18 monitor (collections do not shadow each other): a query that the shards of ONE key alone answer is also
                         // answered when shards under other keys are registered next to them (index cap out of play)
                         if a.is_none() && maxidx >= (1 << 20) && iso_checks < 6 && reg.iter().map(|r| r.1).collect::<BTreeSet<_>>().len() > 1 {
@@ -141,6 +150,38 @@ pub fn run_child(ctx: &mut Ctx) {
         ctx.stat_add("manager_ops", ops.len() as u64);
         ctx.case(fnv(ops.join(";").as_bytes()), ops.len() >= 4);
         let _ = std::fs::remove_dir_all(&dir); let _ = std::fs::remove_dir_all(&side);
+    }
+    // ---- concurrent adders (C11): several tasks add xorb records while size-triggered flushes run; afterwards every record is in a shard
+    if minsize <= 4000 {
+        let mt = tokio::runtime::Builder::new_multi_thread().worker_threads(4).build().unwrap();
+        for round in 0..(if ctx.quick() { 6 } else { 40 }) {
+            let mut rng = ctx.rng.fork(90_000 + round);
+            let dir = tmp_root.join(format!("conc{round}"));
+            std::fs::create_dir_all(&dir).unwrap();
+            let mgr = mt.block_on(ShardFileManager::new_in_session_directory(&dir)).unwrap();
+            let ntasks = rng.range(3, 8) as usize;
+            let mut batches: Vec<Vec<MDBCASInfo>> = Vec::new();
+            for _ in 0..ntasks { let n = rng.range(4, 16) as usize; batches.push(gen_content(&mut rng, n, 0, 0, false).cas); }
+            let all: Vec<MDBCASInfo> = batches.iter().flatten().cloned().collect();
+            let res: Vec<bool> = mt.block_on(async {
+                let mut hs = Vec::new();
+                for b in batches { let m = mgr.clone(); hs.push(tokio::spawn(async move { for c in b { if m.add_cas_block(c).await.is_err() { return false; } tokio::task::yield_now().await; } true })); }
+                let mut out = Vec::new(); for h in hs { out.push(h.await.unwrap_or(false)); } out
+            });
+            if res.iter().any(|ok| !ok) { ctx.fail("C11", "concurrent-add-error", format!("add_cas_block failed under concurrency (round {round})"), "null".into()); }
+            mt.block_on(mgr.flush()).unwrap();
+            let mut stored = BTreeSet::new();
+            for sf in MDBShardFile::load_all_valid(&dir).unwrap() { for (c, _) in sf.read_all_cas_blocks().unwrap() { stored.insert(c.cas_hash); } }
+            let lost: Vec<String> = all.iter().filter(|c| !stored.contains(&c.metadata.cas_hash)).map(|c| c.metadata.cas_hash.hex()).collect();
+            if !lost.is_empty() {
+                ctx.fail("C11", "concurrent-add-cas-lost", format!("{} of {} xorb records added by {ntasks} concurrent tasks (shard target {minsize} bytes) are in no shard file of the session directory after the final flush, e.g. {} (round {round})", lost.len(), all.len(), lost[0]),
+                         format!("{{\"suite\":\"manager\",\"seed\":{},\"concurrent_round\":{round},\"tasks\":{ntasks},\"minsize\":{minsize}}}", ctx.seed));
+            }
+            ctx.stat("concurrent_add_rounds");
+            ctx.stat_add("concurrent_add_shards", mdb_files(&dir).len() as u64);
+            drop(mgr);
+            let _ = std::fs::remove_dir_all(&dir);
+        }
     }
     let _ = std::fs::remove_dir_all(&tmp_root);
 }
